@@ -7,7 +7,8 @@
 // message_protocol.go (build tag verif) that order the races named by the statement. Oracles are timing-robust: nothing
 // is concluded from elapsed wall-clock time, "blocked forever" needs a goroutine dump showing onResponse parked in a
 // channel send, "lost reply" needs hook-ordered knowledge that the response was processed before the requester started
-// to wait. See /verif/notes/C17.md.
+// to wait. Further classes: stalled peer (stalled_test.go), late-response storm + blocked-layer watchdog (storm_test.go),
+// identical payloads (twins_test.go), Connection.Broadcast on a hub with 1-6 peers (bcast_test.go). See /verif/notes/C17.md.
 package c17
 
 import (
